@@ -650,6 +650,9 @@ impl Machine {
                 b.req = b.kind;
                 b.kind = "advance";
                 b.accepted_invalid_sig = a.accepted_invalid_sig;
+                if b.point_mismatch.is_none() {
+                    b.point_mismatch = a.point_mismatch.clone();
+                }
                 return b;
             }
             Op::Restart => {
